@@ -70,6 +70,7 @@ structure St where
   divs : List String := []        -- DIVERGE messages
   stats : List (String × Nat) := []
   nontrivial : Bool := false
+  jmoves : List (Nat × P2) := []  -- junction moves requested since the last step (id, delta)
   hyperOn : Bool := true          -- cfg: routing option improveHyperedgeRoutesMovingJunctions
   strict : List String := []      -- driver args: finding classes to report as SPECFAIL (else counted)
   deriving Inhabited
@@ -357,7 +358,21 @@ def checkOthers (s : St) : St := Id.run do
     | _, _ => pure ()
   return s
 
+/-- tie (not a property clause): after `moveJunction(j, dx, dy)` + processTransaction,
+    `JunctionRef::position()` is the old position plus the requested shift -/
+def checkJunctionMoves (s : St) : St := Id.run do
+  let mut s := s
+  for jo in s.cur.juncs do
+    match s.prev.juncs.find? (·.id == jo.id) with
+    | some pj =>
+      let delta := (s.jmoves.filter (·.1 == jo.id)).foldl (fun (acc : P2) m => acc.translate m.2) ⟨0, 0⟩
+      if pj.pos.translate delta != jo.pos then
+        s := { s with divs := s!"step {s.stepNo}: junction {jo.id} position() = {showP jo.pos}, expected {showP (pj.pos.translate delta)} after the requested moves" :: s.divs }
+    | none => pure ()
+  return { s with jmoves := [] }
+
 def endStep (s : St) : St :=
+  let s := checkJunctionMoves s
   let s := checkPins s
   let s := checkEnds s
   let s := checkOthers s
@@ -381,6 +396,7 @@ def feed (s : St) (l : Array String) : St :=
     let s := bump s ("op." ++ l[1]!)
     match l[1]! with
     | "move" | "resize" => { s with moved := true }
+    | "jmove" => { s with jmoves := s.jmoves ++ [(nat! l[2]!, pt! l 3)] }
     | "setexcl" =>
       let id := nat! l[2]!
       { s with pins := s.pins.map (fun p => if p.id == id then { p with exclSet := int! l[3]! } else p) }
